@@ -279,7 +279,48 @@ pub fn anchors() -> Vec<u64> {
     vec![0, 1 << 31, 1 << 40, 1 << 61, (1u64 << 62) - (1 << 20)]
 }
 
+/// Every frame payload size in a window of 80 consecutive sizes (nine windows by seed), plus,
+/// in the first window's script, the sizes around powers of two and the largest single frame: a
+/// size-specific path in the frame / checksum code has nowhere to hide from the per-frame damage
+/// cases (first / middle / last payload byte, checksum bytes, header fields).
+fn sizes_script(seed: u64, policy: &str) -> Script {
+    let mut rng = Rng(seed.wrapping_mul(0x51_7E5).wrapping_add(3));
+    let name = format!("s{}", "z".repeat(rng.below(6) as usize));
+    let window = (seed % 9) as usize;
+    let mut lens: Vec<usize> = (window * 80..(window + 1) * 80).collect();
+    if window == 0 {
+        for power in [9u32, 10, 11, 12, 13, 14] {
+            for delta in -2i64..=2 {
+                lens.push(((1i64 << power) + delta) as usize);
+            }
+        }
+        // the largest entry that fits one frame of an empty block, give or take
+        for len in 32_700..32_770 {
+            if len % 7 == 0 || (32_730..32_745).contains(&len) {
+                lens.push(len);
+            }
+        }
+    }
+    let mut steps = vec![Step::Create { q: 0 }];
+    let mut payload_seed = seed << 20;
+    for len in lens {
+        payload_seed += 1;
+        steps.push(Step::Append { q: 0, pos: None, batch: vec![Payload { seed: payload_seed, len, embed: None }] });
+    }
+    Script {
+        name: format!("sizes-{seed}"),
+        policy: policy.to_string(),
+        queues: vec![name],
+        anchors: anchors(),
+        steps,
+        expect: None,
+    }
+}
+
 pub fn generate(profile_name: &str, seed: u64, policy: &str) -> Script {
+    if profile_name == "sizes" {
+        return sizes_script(seed, policy);
+    }
     let prof = profile(profile_name);
     let mut rng = Rng(seed.wrapping_mul(0x9E37_79B9).wrapping_add(0xABCD));
     let queues = queue_names(&mut rng, prof.queues, prof.long_names);
